@@ -531,7 +531,8 @@ class C20(core.Check):
             t0 = time.time()
             while len(calls) < 2 and time.time() - t0 < 30:
                 time.sleep(0.01)
-            os.utime(path, (1, 1))                       # the watched file "changes"
+            later = time.time() + 100
+            os.utime(path, (later, later))               # the watched file "changes" (a newer mtime)
             while not stops and time.time() - t0 < 60:
                 time.sleep(0.01)
             time.sleep(0.4)                              # 20 periods
@@ -539,6 +540,8 @@ class C20(core.Check):
             live = [t for t in threading.enumerate() if isinstance(t, plugins.BackgroundTask) and t.is_alive()]
             self.count('autoreload: the worker stops its own monitor through bus.restart()')
             obs = {'stop_returned': bool(stops), 'callback_calls_after_stop': after, 'live_workers': len(live)}
+            if not stops:
+                self.notes.append('autoreload self-stop probe: the worker never reached stop() within the time limit')
             if stops and (after > 1 or live):
                 out.append(core.Violation(
                     'self-stop:worker-survives',
